@@ -57,6 +57,10 @@ def main():
         if os.path.exists(demo) and not a.no_demo:
             os.makedirs(os.path.join(dst, 'tests'), exist_ok=True)
             shutil.copy(demo, os.path.join(dst, 'tests', 'seed_demo.rs'))
+            # helper packages of a demonstration (e.g. a nested crate it builds) travel as seed_*/ directories
+            for extra in sorted(os.listdir(d)):
+                if extra.startswith('seed_') and os.path.isdir(os.path.join(d, extra)):
+                    shutil.copytree(os.path.join(d, extra), os.path.join(dst, 'tests', extra))
             rc, o = sh(demo_cmd, dst, env, timeout=900)
             out['demo_without_change'] = 'pass' if rc == 0 else 'FAIL rc=%d' % rc
             if rc != 0:
